@@ -90,7 +90,7 @@ def run(tier, seed):
                 d = list(data)
                 d[sync_at + k] ^= 0x01
                 for rd in readers[:2]:
-                    add(f, d, "named", f"sync marker of block {bi} byte {k} changed", rd)
+                    add(f, d, "sync", f"sync marker of block {bi} byte {k} changed", rd)
             for dc, ds, what in ((1, 0, "count+1"), (-1, 0, "count-1"), (0, 1, "size+1"), (0, -1, "size-1")):
                 if b["count"] + dc < 0 or b["size"] + ds < 0:
                     continue
@@ -131,7 +131,7 @@ def run(tier, seed):
             continue
         if o.get("init") != "ok":
             # the header itself is damaged / cut: an error at open is the report; nothing else to check (no value was yielded)
-            if damage in ("named",) and "header sync" not in what:
+            if damage in ("named", "sync") and "header sync" not in what:
                 rep.violation(f"{f['codec']} file, {what}: reader failed to open an intact header", {"fam": "reader_damage", "cmd": c, "codec": f["codec"], "damage": damage},
                               observed=o)
             continue
